@@ -124,30 +124,46 @@ def static_test(test):
     return None
 
 
+NONCALLING = {'wraps', 'property', 'classmethod', 'staticmethod', 'lru_cache', 'cache', 'cached_property', 'pickle',
+              'setter', 'getter', 'deleter', 'abstractmethod', 'overload', 'partial', 'update_wrapper', 'isinstance',
+              'issubclass', 'getattr', 'hasattr', 'setattr', 'cast', 'id', 'type', 'repr', 'str', 'len', 'append',
+              'add', 'extend', 'insert', 'register', 'format', 'join', 'get', 'setdefault', 'update', 'TypeVar'}
+
+
 class Refs:
-    """What a piece of code mentions: the raw material of the call graph and of the useAttr events."""
+    """What a piece of code mentions: the raw material of the call graph and of the useAttr events.
+    `called_*`: in callee position or passed as an argument to a call that may call it back;
+    `taken_*`: mentioned elsewhere (stored, returned, passed to a function known not to call it)."""
 
     def __init__(self):
-        self.names = set()         # Name loads
-        self.attrs = set()         # `.m` loads on receivers that are not module aliases
-        self.alias_attrs = set()   # (our module, attr) reached through a module alias
-        self.uses = []             # (our module, attr, lineno): the useAttr events, in source order
-        self.exotic = False        # contains a call whose callee is not a name / attribute chain
-        self.called_names = set()  # Names in callee position (to decide exotic-ness after resolution)
+        self.called_names = set()
+        self.taken_names = set()
+        self.called_attrs = set()      # `.m` on receivers that are not module aliases
+        self.taken_attrs = set()
+        self.called_alias = set()      # (our module, attr) reached through a module alias
+        self.taken_alias = set()
+        self.call_results = []         # dotted X for `X(...)(...)`
+        self.uses = []                 # (our module, attr, lineno): evaluated for sure, in source order
+        self.lambda_uses = []          # same, inside a lambda body (evaluated only if the lambda is called)
+        self.exotic = False            # a call whose callee is neither a name, an attribute nor a call result
         self.has_call = False
-        self.noncallee_names = set()
-        self.noncallee_attrs = set()
+        self.subclass_bases = []       # dotted base-class expressions of a class statement
+        self.local_fns = {}            # nested function name -> qualname (visible in this code)
+        self.returns = []              # names returned (for functions)
 
     def merge(self, o):
-        self.names |= o.names
-        self.attrs |= o.attrs
-        self.alias_attrs |= o.alias_attrs
-        self.uses += o.uses
-        self.exotic |= o.exotic
         self.called_names |= o.called_names
+        self.taken_names |= o.taken_names
+        self.called_attrs |= o.called_attrs
+        self.taken_attrs |= o.taken_attrs
+        self.called_alias |= o.called_alias
+        self.taken_alias |= o.taken_alias
+        self.call_results += o.call_results
+        self.uses += o.uses
+        self.lambda_uses += o.lambda_uses
+        self.exotic |= o.exotic
         self.has_call |= o.has_call
-        self.noncallee_names |= o.noncallee_names
-        self.noncallee_attrs |= o.noncallee_attrs
+        self.subclass_bases += o.subclass_bases
 
 
 class ModuleInfo:
@@ -226,60 +242,85 @@ class ModuleInfo:
 
     # ---- what code mentions ---------------------------------------------------------------------
     def refs_of(self, nodes, aliases, now):
-        """Refs of a list of AST nodes.  now=True: only what is evaluated when the expression is evaluated
-        (lambda bodies are skipped, their defaults are not); now=False: everything below (function bodies)."""
+        """(Refs, nested function defs) of a list of AST nodes.  now=True: an import-time expression (the uses
+        inside lambda bodies go to `lambda_uses`); now=False: a function body (nested defs are returned, their
+        bodies are not part of this code, their headers are)."""
         r = Refs()
-        todo = list(reversed([n for n in nodes if n is not None]))
-        callee_ids = set()
+        nested = []
+        todo = [(n, False) for n in reversed([n for n in nodes if n is not None])]
+        called_ids = set()
         while todo:
-            n = todo.pop()
-            if isinstance(n, ast.Lambda) and now:
-                todo.extend(d for d in n.args.defaults if d is not None)
-                todo.extend(d for d in n.args.kw_defaults if d is not None)
-                continue
+            n, in_lambda = todo.pop()
             if isinstance(n, (ast.Import, ast.ImportFrom)):
+                continue
+            if isinstance(n, (ast.FunctionDef, ast.AsyncFunctionDef)) and not now:
+                nested.append(n)
+                todo.extend((h, in_lambda) for h in reversed(self.header_nodes(n)))
+                if n.decorator_list:
+                    r.has_call = True
+                continue
+            if isinstance(n, ast.Lambda):
+                todo.extend((d, in_lambda) for d in n.args.defaults if d is not None)
+                todo.extend((d, in_lambda) for d in n.args.kw_defaults if d is not None)
+                todo.append((n.body, True))
                 continue
             if isinstance(n, ast.Call):
                 r.has_call = True
                 f = n.func
-                callee_ids.add(id(f))
-                if isinstance(f, ast.Name):
-                    r.called_names.add(f.id)
-                elif not isinstance(f, ast.Attribute):
+                fd = dotted(f)
+                if fd:
+                    called_ids.add(id(f))
+                    last = fd[-1]
+                elif isinstance(f, ast.Call):
+                    d = dotted(f.func)
+                    if d:
+                        r.call_results.append(d)
+                        last = d[-1]
+                    else:
+                        r.exotic = True
+                        last = None
+                elif isinstance(f, ast.Attribute):
+                    # method call on an arbitrary expression, e.g. CSSParser(...).process_selectors(...)
+                    called_ids.add(id(f))
+                    last = f.attr
+                else:
                     r.exotic = True
+                    last = None
+                if last not in NONCALLING:
+                    for a in list(n.args) + [k.value for k in n.keywords]:
+                        if isinstance(a, (ast.Name, ast.Attribute)):
+                            called_ids.add(id(a))
             if isinstance(n, ast.Attribute) and isinstance(n.ctx, ast.Load):
+                called = id(n) in called_ids
                 d = dotted(n)
                 if d and d[0] in aliases:
                     mod = aliases[d[0]]
                     rest = d[1:]
-                    i = 0
-                    while i < len(rest):
-                        a = rest[i]
+                    k = 0
+                    while k < len(rest):
+                        a = rest[k]
                         if a in MODULE_DUNDERS:
                             break
-                        r.uses.append((mod, a, n.lineno))
+                        (r.lambda_uses if (in_lambda and now) else r.uses).append((mod, a, n.lineno))
                         if self.finder.exists(mod + '.' + a):
                             mod = mod + '.' + a
-                            i += 1
+                            k += 1
                             continue
-                        r.alias_attrs.add((mod, a))
-                        # deeper attributes are ordinary attribute loads (e.g. cm.CSSMatch.method)
-                        for b in rest[i + 1:]:
-                            r.attrs.add(b)
-                            if id(n) not in callee_ids:
-                                r.noncallee_attrs.add(b)
+                        if k == len(rest) - 1:
+                            (r.called_alias if called else r.taken_alias).add((mod, a))
+                        else:
+                            # alias.Class.method...: the class is mentioned, the rest are ordinary attributes
+                            r.taken_alias.add((mod, a))
+                            for b in rest[k + 1:-1]:
+                                r.taken_attrs.add(b)
+                            (r.called_attrs if called else r.taken_attrs).add(rest[-1])
                         break
                     continue
-                r.attrs.add(n.attr)
-                if id(n) not in callee_ids:
-                    r.noncallee_attrs.add(n.attr)
+                (r.called_attrs if called else r.taken_attrs).add(n.attr)
             elif isinstance(n, ast.Name) and isinstance(n.ctx, ast.Load):
-                r.names.add(n.id)
-                if id(n) not in callee_ids:
-                    r.noncallee_names.add(n.id)
-            children = list(ast.iter_child_nodes(n))
-            todo.extend(reversed(children))
-        return r
+                (r.called_names if id(n) in called_ids else r.taken_names).add(n.id)
+            todo.extend((c, in_lambda) for c in reversed(list(ast.iter_child_nodes(n))))
+        return r, nested
 
     def header_nodes(self, fn):
         """Expressions of a def statement that are evaluated when the def statement runs."""
@@ -322,25 +363,38 @@ class ModuleInfo:
         return aliases, local_imports
 
     def collect_functions(self):
-        """One Refs per top-level function and per method (nested functions are folded into their parent)."""
+        """One Refs per function, method and nested function (`outer.<locals>.inner`)."""
         self.local_imports = []
+        self.decorators = {}
 
-        def add_fn(qual, fn):
+        def add_fn(qual, fn, outer_locals):
             aliases, li = self.local_aliases(fn)
-            r = self.refs_of(fn.body, aliases, now=False)
-            # nested defs: their headers are evaluated when the parent runs; already covered by walking the body
+            r, nested = self.refs_of(fn.body, aliases, now=False)
+            r.local_fns = dict(outer_locals)
+            for nf in nested:
+                r.local_fns[nf.name] = qual + '.<locals>.' + nf.name
+            # names returned by this function itself (not by nested ones)
+            stack = list(fn.body)
+            while stack:
+                n = stack.pop()
+                if isinstance(n, (ast.FunctionDef, ast.AsyncFunctionDef, ast.Lambda, ast.ClassDef)):
+                    continue
+                if isinstance(n, ast.Return) and isinstance(n.value, ast.Name):
+                    r.returns.append(n.value.id)
+                stack.extend(ast.iter_child_nodes(n))
             self.funcs[qual] = r
+            self.decorators[qual] = list(fn.decorator_list)
             for kind, m, a, ln in li:
                 self.local_imports.append((qual, kind, m, a, ln))
+            for nf in nested:
+                add_fn(qual + '.<locals>.' + nf.name, nf, r.local_fns)
 
         def add_class(qual, cls):
             methods = {}
-            for st in ast.walk(cls):
-                pass
             for st in cls.body:
                 if isinstance(st, (ast.FunctionDef, ast.AsyncFunctionDef)):
                     methods[st.name] = qual + '.' + st.name
-                    add_fn(qual + '.' + st.name, st)
+                    add_fn(qual + '.' + st.name, st, {})
                 elif isinstance(st, ast.ClassDef):
                     add_class(qual + '.' + st.name, st)
             self.classes[qual] = dict(methods=methods, bases=[dotted(b) for b in cls.bases if dotted(b)],
@@ -349,7 +403,7 @@ class ModuleInfo:
         def visit(stmts):
             for st in stmts:
                 if isinstance(st, (ast.FunctionDef, ast.AsyncFunctionDef)):
-                    add_fn(st.name, st)
+                    add_fn(st.name, st, {})
                 elif isinstance(st, ast.ClassDef):
                     add_class(st.name, st)
                 elif isinstance(st, (ast.If, ast.Try, ast.For, ast.While, ast.With)):
@@ -386,7 +440,7 @@ class Extractor:
         pending = []
 
         def expr(nodes, lineno, force_call=False):
-            r = mi.refs_of(nodes if isinstance(nodes, list) else [nodes], mi.aliases, now=True)
+            r, _ = mi.refs_of(nodes if isinstance(nodes, list) else [nodes], mi.aliases, now=True)
             for m, a, ln in r.uses:
                 ev.append(('useAttr', m, a, False, ln))
             if r.has_call or force_call:
@@ -457,9 +511,21 @@ class Extractor:
                 if not in_class:
                     ev.append(('define', st.name))
             elif isinstance(st, ast.ClassDef):
-                # creating a class calls the metaclass and the bases' __init_subclass__
-                expr(list(st.decorator_list) + list(st.bases) + [k.value for k in st.keywords], st.lineno,
-                     force_call=True)
+                # the base expressions are evaluated; creating the class calls the metaclass and the bases'
+                # subclass hooks (not the bases' other methods); applying a decorator is a call
+                rb, _ = mi.refs_of(list(st.bases), mi.aliases, now=True)
+                for m, a, ln in rb.uses:
+                    ev.append(('useAttr', m, a, False, ln))
+                rd, _ = mi.refs_of(list(st.decorator_list) + [k.value for k in st.keywords], mi.aliases, now=True)
+                for m, a, ln in rd.uses:
+                    ev.append(('useAttr', m, a, False, ln))
+                seed = Refs()
+                seed.subclass_bases = [dotted(b) for b in st.bases if dotted(b)]
+                if st.decorator_list or st.keywords:
+                    seed.merge(rd)
+                if rb.has_call:
+                    seed.merge(rb)
+                ev.append(('call', seed, st.lineno))
                 stmts(st.body, True)
                 if not in_class:
                     ev.append(('define', st.name))
@@ -590,180 +656,215 @@ class Extractor:
             return self.resolve(m, [a] + parts[1:], depth + 1) if self.finder.is_ours(m) else None
         if head in mi.assign_alias and mi.assign_alias[head][0] != head:
             return self.resolve(mod, mi.assign_alias[head] + parts[1:], depth + 1)
+        # a class nested in a class, mentioned by its short name inside the enclosing class body
+        nested = [q for q in mi.classes if q.endswith('.' + head)]
+        if len(parts) == 1 and nested:
+            return ('class', mod, nested[0])
         return None
 
-    def unresolved_callee(self, mod, name):
-        """A called bare name that is neither ours, nor a builtin, nor imported from an opaque module: a
-        parameter or local variable holding some callable."""
-        mi = self.mods[mod]
-        if self.resolve(mod, [name]) is not None:
+    def resolve_in(self, mn, r, parts):
+        """Like resolve, but a bare name may be a nested function visible from the code `r`."""
+        if len(parts) == 1 and parts[0] in r.local_fns:
+            return ('fn', mn, r.local_fns[parts[0]])
+        return self.resolve(mn, parts)
+
+    def opaque_name(self, mn, r, name):
+        """A bare name that certainly does not denote one of our functions: builtin, opaque import, module alias."""
+        mi = self.mods[mn]
+        if name in r.local_fns or name in mi.top_defs or name in mi.assign_alias:
             return False
-        if name in BUILTIN_NAMES:
-            return False
-        if name in mi.from_names and not self.finder.is_ours(mi.from_names[name][0]):
-            return False
+        if name in mi.from_names:
+            return not self.finder.is_ours(mi.from_names[name][0])
         if name in mi.aliases:
-            return False
-        return True
+            return True
+        # names bound by `import x` / `import x.y as z` of opaque modules
+        if name in self.opaque_imports.setdefault(mn, self._opaque_imports(mi)):
+            return True
+        return name in BUILTIN_NAMES
 
-    def expand_calls(self):
-        mods = self.mods
-        # address-taken functions: mentioned outside callee position anywhere
-        all_refs = []
-        for mn, mi in mods.items():
-            for q, r in mi.funcs.items():
-                all_refs.append((mn, r))
-            for e in mi.events:
-                if e[0] == 'call':
-                    all_refs.append((mn, e[1]))
-        taken_fns = set()
-        taken_attr_names = set()
-        for mn, r in all_refs:
-            for n in r.noncallee_names:
-                t = self.resolve(mn, [n])
-                if t and t[0] == 'fn':
-                    taken_fns.add((t[1], t[2]))
-            taken_attr_names |= r.noncallee_attrs
-        for mn, mi in mods.items():
-            for cq, c in mi.classes.items():
-                for m, q in c['methods'].items():
-                    if m in taken_attr_names:
-                        taken_fns.add((mn, q))
+    @staticmethod
+    def _opaque_imports(mi):
+        out = set()
+        for n in ast.walk(mi.tree):
+            if isinstance(n, ast.Import):
+                for al in n.names:
+                    out.add(al.asname or al.name.split('.')[0])
+        return out - set(mi.aliases)
 
-        R = set()          # reachable functions (module, qualname)
-        I = set()          # classes that may have instances / are referenced at import time
-        A = set()          # attribute names loaded in reachable code
-        exotic_seen = [False]
-        work = []
+    SUBCLASS_HOOKS = ('__init_subclass__', '__class_getitem__', '__mro_entries__', '__set_name__')
 
-        def add_fn(mn, q):
-            if q is not None and (mn, q) not in R and q in mods[mn].funcs:
-                R.add((mn, q))
-                work.append((mn, mods[mn].funcs[q]))
-
-        def add_class(mn, q):
-            if (mn, q) in I or q not in mods[mn].classes:
-                return
-            I.add((mn, q))
-            c = mods[mn].classes[q]
-            for m, fq in c['methods'].items():
-                if (m.startswith('__') and m.endswith('__')) or m in A:
-                    add_fn(mn, fq)
-            for b in c['bases'] + c['meta']:
-                t = self.resolve(mn, b)
+    def ancestors(self, mn, q):
+        """The class (module, qualname) and every base class of it that is one of ours."""
+        seen = []
+        stack = [(mn, q)]
+        while stack:
+            c = stack.pop()
+            if c in seen or c[1] not in self.mods[c[0]].classes:
+                continue
+            seen.append(c)
+            info = self.mods[c[0]].classes[c[1]]
+            for b in info['bases'] + info['meta']:
+                t = self.resolve(c[0], b)
                 if t and t[0].startswith('class'):
-                    add_class(t[1], t[2])
+                    stack.append((t[1], t[2]))
+        return seen
 
-        def add_attr(a):
-            if a in A:
-                return
-            A.add(a)
-            for (mn, q) in list(I):
-                fq = mods[mn].classes[q]['methods'].get(a)
-                if fq:
-                    add_fn(mn, fq)
+    def returned_fns(self, f):
+        """Functions a function of ours may return by name."""
+        mn, q = f
+        r = self.mods[mn].funcs.get(q)
+        out = set()
+        if r is None:
+            return out
+        for n in r.returns:
+            t = self.resolve_in(mn, r, [n])
+            if t and t[0] == 'fn':
+                out.add((t[1], t[2]))
+        return out
 
-        def add_target(t):
+    def wrappers_of(self, f):
+        """What runs *instead of / around* a decorated function when it is called: the functions returned by
+        our decorators (`@D` -> returns(D); `@D(...)` -> returns(returns(D)))."""
+        mn, q = f
+        out = set()
+        dummy = Refs()
+        for d in self.mods[mn].decorators.get(q, []):
+            depth = 1
+            e = d
+            if isinstance(e, ast.Call):
+                depth = 2
+                e = e.func
+            dd = dotted(e)
+            if not dd:
+                continue
+            t = self.resolve_in(mn, dummy, dd)
+            if not t or t[0] != 'fn':
+                continue
+            level = {(t[1], t[2])}
+            for _ in range(depth):
+                nxt = set()
+                for g_ in level:
+                    nxt |= self.returned_fns(g_)
+                level = nxt
+            out |= level
+        return out
+
+    def analyse(self, mn, r):
+        """called functions, taken functions, instantiated classes, merely mentioned classes, called / taken
+        attribute names, exotic?"""
+        called, taken, classes, taken_classes = set(), set(), set(), set()
+        exotic = r.exotic
+
+        def add(t, dest):
             if t is None:
                 return
             if t[0] == 'fn':
-                add_fn(t[1], t[2])
-            elif t[0] == 'class':
-                add_class(t[1], t[2])
-            elif t[0] == 'class+fn':
-                add_class(t[1], t[2])
-                add_fn(t[1], t[3])
+                dest.add((t[1], t[2]))
+            elif t[0] == 'class+fn' and t[3]:
+                # Class.method mentioned: the class is merely mentioned, the method is called / taken
+                taken_classes.add((t[1], t[2]))
+                dest.add((t[1], t[3]))
+            elif dest is called:
+                classes.add((t[1], t[2]))          # Class(...): instantiated
+            else:
+                taken_classes.add((t[1], t[2]))    # isinstance(x, Class), bound=Class, ...: only mentioned
 
-        def process(mn, r):
-            for n in r.names:
-                add_target(self.resolve(mn, [n]))
-            for (m, a) in r.alias_attrs:
-                add_target(self.resolve(m, [a]))
-            for a in r.attrs:
-                add_attr(a)
-            if r.exotic or any(self.unresolved_callee(mn, n) for n in r.called_names):
-                if not exotic_seen[0]:
-                    exotic_seen[0] = True
-                    for (m, q) in taken_fns:
-                        add_fn(m, q)
+        for n in r.called_names:
+            t = self.resolve_in(mn, r, [n])
+            add(t, called)
+            if t is None and not self.opaque_name(mn, r, n):
+                exotic = True          # a parameter / local variable holding some callable
+        for n in r.taken_names:
+            add(self.resolve_in(mn, r, [n]), taken)
+        for (m, a) in r.called_alias:
+            add(self.resolve(m, [a]), called)
+        for (m, a) in r.taken_alias:
+            add(self.resolve(m, [a]), taken)
+        for d in r.call_results:
+            t = self.resolve_in(mn, r, d)
+            if t and t[0] == 'fn':
+                called |= self.returned_fns((t[1], t[2]))
+            elif t:
+                classes.add((t[1], t[2]))     # instance of our class being called: its __call__ is a dunder
+            elif not (len(d) >= 1 and (self.opaque_name(mn, r, d[0]) or d[0] in ('self', 'cls'))):
+                exotic = True
+        for b in r.subclass_bases:
+            t = self.resolve(mn, b)
+            if t and t[0].startswith('class'):
+                for (cm_, q) in self.ancestors(t[1], t[2]):
+                    for h in self.SUBCLASS_HOOKS:
+                        fq = self.mods[cm_].classes[q]['methods'].get(h)
+                        if fq:
+                            called.add((cm_, fq))
+        return called, taken, classes, taken_classes, set(r.called_attrs), set(r.taken_attrs), exotic
 
-        def closure(seed_mod, seed_refs):
-            """Functions that may run when the import-time expression with these refs is evaluated.  The sets
-            I and A are shared by all seeds (a class instantiated by one statement stays instantiated)."""
-            before = set(R)
-            process(seed_mod, seed_refs)
-            while work:
-                mn, r = work.pop()
-                process(mn, r)
-            return R - before
+    def expand_calls(self):
+        mods = self.mods
+        self.opaque_imports = {}
 
-        # global fixpoint first (so that I and A are complete), then per-statement reachability in that graph
-        for mn in self.order:
-            for e in mods[mn].events:
-                if e[0] == 'call':
-                    closure(mn, e[1])
-        finalI, finalA, final_exotic = set(I), set(A), exotic_seen[0]
-        self.reachable_functions = sorted(R)
-        self.instantiated = sorted(I)
+        def is_dunder(m):
+            return m.startswith('__') and m.endswith('__')
 
-        def edges(mn, r):
-            out = set()
-            cls = set()
-            for n in r.names:
-                t = self.resolve(mn, [n])
-                if t:
-                    out |= tgt(t)
-            for (m, a) in r.alias_attrs:
-                t = self.resolve(m, [a])
-                if t:
-                    out |= tgt(t)
-            for a in r.attrs:
-                for (cm_, q) in finalI:
-                    fq = mods[cm_].classes[q]['methods'].get(a)
-                    if fq:
-                        out.add((cm_, fq))
-            if r.exotic or any(self.unresolved_callee(mn, n) for n in r.called_names):
-                out |= taken_fns
+        # instantiated classes; functions whose address is taken in reachable code; classes merely mentioned there
+        I, T, TC = set(), set(), set()
+
+        def callees(mn, r):
+            """Functions that may start running while the code `r` of module mn runs; updates I and T."""
+            called, taken, classes, taken_classes, cattrs, tattrs, exotic = self.analyse(mn, r)
+            out = set(called)
+            TC.update(taken_classes)
+            if exotic:
+                classes = classes | TC       # an unnamed callee may be any class mentioned so far
+            for c in classes:
+                for a in self.ancestors(*c):
+                    I.add(a)
+                    for m, fq in mods[a[0]].classes[a[1]]['methods'].items():
+                        if is_dunder(m):
+                            out.add((a[0], fq))
+            T.update(taken)
+            for (cm_, q) in I:
+                ms = mods[cm_].classes[q]['methods']
+                for a in cattrs:
+                    if a in ms:
+                        out.add((cm_, ms[a]))
+                for a in tattrs:
+                    if a in ms:
+                        # a property (or otherwise decorated method) runs on attribute access
+                        if mods[cm_].decorators.get(ms[a]):
+                            out.add((cm_, ms[a]))
+                        else:
+                            T.add((cm_, ms[a]))
+            if exotic:
+                out |= T
             return out
 
-        def tgt(t):
-            if t[0] == 'fn':
-                return {(t[1], t[2])}
-            out = set()
-            # dunders of the class and of its ancestors
-            seen = set()
-            stack = [(t[1], t[2])]
-            while stack:
-                cm_, q = stack.pop()
-                if (cm_, q) in seen or q not in mods[cm_].classes:
-                    continue
-                seen.add((cm_, q))
-                c = mods[cm_].classes[q]
-                for m, fq in c['methods'].items():
-                    if m.startswith('__') and m.endswith('__'):
-                        out.add((cm_, fq))
-                for b in c['bases'] + c['meta']:
-                    bt = self.resolve(cm_, b)
-                    if bt and bt[0].startswith('class'):
-                        stack.append((bt[1], bt[2]))
-            if t[0] == 'class+fn' and t[3]:
-                out.add((t[1], t[3]))
-            return out
+        def callees_of_fn(f):
+            return callees(f[0], mods[f[0]].funcs[f[1]]) | self.wrappers_of(f)
 
-        edge_cache = {}
-
-        def reach_from(mn, r):
+        def reach(seeds):
             seen = set()
-            stack = list(edges(mn, r))
+            stack = list(seeds)
             while stack:
                 f = stack.pop()
                 if f in seen or f[1] not in mods[f[0]].funcs:
                     continue
                 seen.add(f)
-                if f not in edge_cache:
-                    edge_cache[f] = edges(f[0], mods[f[0]].funcs[f[1]])
-                stack.extend(edge_cache[f])
+                stack.extend(callees_of_fn(f))
             return seen
+
+        # iterate until I and T are stable (they only grow)
+        while True:
+            size = (len(I), len(T), len(TC))
+            R = set()
+            for mn in self.order:
+                for e in mods[mn].events:
+                    if e[0] == 'call':
+                        R |= reach(callees(mn, e[1]))
+            if (len(I), len(T), len(TC)) == size:
+                break
+        self.reachable_functions = sorted(R)
+        self.instantiated = sorted(I)
+        self.taken = sorted(T)
 
         self.called_into = {}
         for mn in self.order:
@@ -774,10 +875,15 @@ class Extractor:
                 if e[0] != 'call':
                     new.append(e)
                     continue
-                fs = reach_from(mn, e[1])
+                fs = reach(callees(mn, e[1]))
+                for (m, a, ln) in e[1].lambda_uses:
+                    if (m, a) not in emitted:
+                        emitted.add((m, a))
+                        new.append(('useAttr', m, a, True, ln))
                 for f in sorted(fs):
                     self.called_into.setdefault(f'{f[0]}:{f[1]}', f'{mn}:{e[2]}')
-                    for (m, a, ln) in mods[f[0]].funcs[f[1]].uses:
+                    fr = mods[f[0]].funcs[f[1]]
+                    for (m, a, ln) in fr.uses + fr.lambda_uses:
                         if (m, a) not in emitted:
                             emitted.add((m, a))
                             new.append(('useAttr', m, a, True, ln))
